@@ -328,13 +328,18 @@ class DiscreteFourierTransformBase(Operator):
         if self.impl != 'pyfftw':
             raise ValueError('cannot create fftw plan without fftw backend')
 
-        x = self.domain.element()
-        y = self.range.element()
+        x = self.domain.element().asarray()
+        if is_real_dtype(self.range.dtype) and not self.halfcomplex:
+            # C2R without half-complex storage is run as C2C, see
+            # `DiscreteFourierTransformInverse._call_pyfftw`
+            y = np.empty(x.shape, dtype=x.dtype)
+        else:
+            y = self.range.element().asarray()
         kwargs.pop('planning_timelimit', None)
 
         direction = 'forward' if self.sign == '-' else 'backward'
         self._fftw_plan = pyfftw_call(
-            x.asarray(), y.asarray(), direction=direction,
+            x, y, direction=direction,
             halfcomplex=self.halfcomplex, axes=self.axes,
             planning_effort=planning_effort, **kwargs)
 
